@@ -10,6 +10,7 @@ def behOf? (s : String) : Option Beh :=
   | ["garbage"] => some .garbage | ["notfound"] => some .notfound | ["empty"] => some .empty
   | ["reset"] => some .reset | ["hang"] => some .hang
   | ["prefix", k] => k.toNat?.map .pfx
+  | ["partialreset", k] => k.toNat?.map .pfx      -- what the client got before the reset = a prefix answer
   | ["shift", d] => d.toNat?.map .shift
   | ["forged", _] => some .forged
   | _ => none
